@@ -2,6 +2,7 @@
 import itertools
 import os
 import random
+import re
 
 from vlib import coq
 from vlib.refloop import run_ref
@@ -124,6 +125,112 @@ def do_case(ctx, kind, n, mode, param, cases_mono, cases_seq):
     return final, log
 
 
+
+STANDINS = os.path.join(os.path.dirname(os.path.dirname(os.path.abspath(__file__))), 'standins')
+
+
+def ifs_content(rnd, n):
+    """n conditionals A0..A(n-1) in order of appearance, nested at random in the #if bodies; #else / #elif branches hold
+    plain lines only, so that resolving a conditional to 1 keeps every conditional nested in it"""
+    k = {'i': 0}
+
+    def block(depth, budget):
+        out = []
+        while k['i'] < n and budget > 0:
+            i = k['i']
+            k['i'] += 1
+            budget -= 1
+            out.append(rnd.choice(['#if A%d\n', '#ifdef A%d\n', '  # if A%d\n', '#ifndef A%d\n']) % i)
+            out.append(f'x{i}\n')
+            if depth < 3 and rnd.random() < 0.5:
+                out += block(depth + 1, rnd.randint(1, 3))
+            r = rnd.random()
+            if r < 0.25:
+                out += [f'#elif B{i}\n', f'e{i}\n']
+            if r < 0.5:
+                out += ['#else\n', f'y{i}\n']
+            out.append('#endif\n')
+            if rnd.random() < 0.4:
+                out.append(f'z{i}\n')
+        return out
+    res = []
+    while k['i'] < n:
+        res += block(0, n)
+    return 'head\n' + ''.join(res)
+
+
+IF_LINE = re.compile(r'^\s*#\s*if')
+IF_LABEL = re.compile(r'^\s*#\s*if(?:n?def)?\s+A(\d+)\s*$')
+
+
+def ifs_present(data):
+    return [int(m.group(1)) for l in data.decode().split('\n') for m in [IF_LABEL.match(l)] if m]
+
+
+def ifs_count(data):
+    return sum(1 for l in data.decode().split('\n') if IF_LINE.match(l))
+
+
+def ifs_case(ctx, text, n, req, pass_=None):
+    """IfPass (resolve each range of conditionals to 0, then to 1) against the unifdef stand-in, monotone test
+    "the conditionals of req are still there": oracle only (the tool is an oracle; no Coq model of unifdef)"""
+    from cvise.passes.ifs import IfPass
+    p = os.path.join(ctx.tmp, 'tc-ifs.c')
+    with open(p, 'w') as f:
+        f.write(text)
+    pass_ = pass_ or IfPass(None, {'unifdef': os.path.join(STANDINS, 'unifdef')})
+    reqs = set(req)
+    steps, final, reason = run_ref(pass_, p, lambda c: reqs <= set(ifs_present(open(c, 'rb').read())), ctx.tmp,
+                                   observe=lambda st: (st.index, st.end(), st.instances, st.value), max_steps=4 * (n + 2) * (n + 3) + 40)
+    if reason == 'max_steps':
+        return 'more candidates than twice the proved bound of the cursor: the pass does not terminate'
+    for s in steps:
+        i, e, inst, v = s.state_repr
+        real = ifs_count(s.before)
+        if not (0 <= i < e <= inst) or inst != real:
+            return f'range [{i},{e}) value {v} with a cursor holding {inst} instances; the file holds {real} conditionals'
+        if s.result != 'OK':
+            return f'range [{i},{e}) value {v}: result {s.result}'
+    if sorted(ifs_present(final)) != sorted(reqs) or ifs_count(final) != len(reqs):
+        return f'monotone test requiring {sorted(reqs)}: the final file keeps conditionals {ifs_present(final)} ({ifs_count(final)} #if lines)'
+    if not any(s.accepted for s in steps):
+        tried = {(s.state_repr[0], s.state_repr[3]) for s in steps if s.state_repr[1] == s.state_repr[0] + 1}
+        missing = [(q, v) for q in range(n) for v in (0, 1) if (q, v) not in tried]
+        if missing:
+            return f'nothing accepted, but single conditionals / values {missing} were never tried'
+    return None
+
+
+def lines_reuse_case(ctx, arg, n, req, pass_):
+    """the same LinesPass object (with a formatter argument), after an earlier new() that legitimately bailed out"""
+    p = os.path.join(ctx.tmp, 'tc-lines-fmt.c')
+    with open(p, 'w') as f:
+        f.write(content('lines', range(n)))
+    reqs = set(req)
+    steps, final, reason = run_ref(pass_, p, lambda c: reqs <= set(present('lines', open(c, 'rb').read())), ctx.tmp, check_sanity=lambda: None,
+                                   observe=lambda st: (st.index, st.end(), st.instances), max_steps=(n + 2) * (n + 3) + 20)
+    got = present('lines', final)
+    if got != sorted(reqs):
+        return f'lines::{arg} (pass object used before on a file whose formatted version failed the sanity check), monotone test requiring {sorted(reqs)}: final lines {got} after {len(steps)} candidates'
+    return None
+
+
+def bailed_out_lines_pass(ctx, arg):
+    from cvise.passes.lines import LinesPass
+    from cvise.utils.error import InsaneTestCaseError
+    pass_ = LinesPass(arg, {'topformflat': os.path.join(STANDINS, 'topformflat')})
+    p = os.path.join(ctx.tmp, 'tc-lines-bail.c')
+    orig = 'f() { g() { h() {\n a;\n b;\n } } }\n'
+    with open(p, 'w') as f:
+        f.write(orig)
+
+    def insane_unless_original():
+        if open(p).read() != orig:
+            raise InsaneTestCaseError([p], 'test')
+    st = pass_.new(p, insane_unless_original)
+    return pass_, st, open(p).read() == orig
+
+
 def run_impl_mode(ctx, kind, n, mode, param):
     p = os.path.join(ctx.tmp, f'tc-{kind}.c')
     with open(p, 'w') as f:
@@ -204,6 +311,31 @@ def explore(ctx):
                 for s in steps:
                     out += [s.state_repr[0], s.state_repr[1], s.state_repr[2], 1 if s.accepted else 0]
                 cases_mono.append((f'({n}, {coq.lst([str(x) for x in sorted(req)]) if req else "(@nil nat)"})', out, ('clang', n, 'mono', list(req))))
+    # #if blocks: IfPass with the unifdef stand-in (nesting, #else, #elif: resolving one conditional changes the number of others)
+    for it in range(60 if ctx.quick() else 600):
+        n = rnd.randint(1, 6 if ctx.quick() else 9)
+        text = ifs_content(rnd, n)
+        req = [x for x in range(n) if rnd.random() < rnd.choice([0.0, 0.3, 0.6, 1.0])]
+        why = ifs_case(ctx, text, n, req)
+        ctx.evaluations += 1
+        ctx.count(f'ifs:mono:n={n}')
+        if 0 < len(req) < n:
+            ctx.nontriv(('ifs', text, tuple(req)))
+        if why:
+            ctx.violation('binary-ifs-mono', f'ifs on {text!r}: {why}', {'kind': 'ifs', 'text': text, 'n': n, 'param': req})
+    # lines with a formatter argument: the pass object is reused across files; a bail-out on one file must not stick
+    for arg in ('1', '2'):
+        pass_, st, restored = bailed_out_lines_pass(ctx, arg)
+        ctx.count('lines-formatter:bail-out-then-reuse')
+        if st is not None or not restored:
+            ctx.broke('harness', 'lines bail-out scenario', f'lines::{arg}: new() did not bail out (state {st}, file restored {restored})')
+        for n in (3, 4):
+            for r in range(0, n + 1):
+                for req in itertools.combinations(range(n), r):
+                    why = lines_reuse_case(ctx, arg, n, req, pass_)
+                    ctx.evaluations += 1
+                    if why:
+                        ctx.violation('binary-lines-reused-object', why, {'kind': 'lines-reuse', 'arg': arg, 'n': n, 'param': list(req)})
     for nm, fn, cs in (('c06mono', 'mono_run', cases_mono), ('c06seq', 'seq_run', cases_seq)):
         bad = coq.corr_eval(nm, imports, fn, [(a, b) for a, b, _ in cs], shard=400)
         ctx.corr_cases += len(cs)
@@ -229,6 +361,19 @@ def replay(ctx, payload):
         why = c15.oracle_bin(ctx, r['n'], 'mono', r['param'], steps, final, log, {}, None)
         if why:
             ctx.violation('binary-clang-mono', why, r)
+        return
+    if r['kind'] == 'ifs':
+        why = ifs_case(ctx, r['text'], r['n'], r['param'])
+        print('replay ifs:', why)
+        if why:
+            ctx.violation('binary-ifs-mono', why, r)
+        return
+    if r['kind'] == 'lines-reuse':
+        pass_, st, restored = bailed_out_lines_pass(ctx, r['arg'])
+        why = lines_reuse_case(ctx, r['arg'], r['n'], r['param'], pass_)
+        print('replay lines-reuse:', why)
+        if why:
+            ctx.violation('binary-lines-reused-object', why, r)
         return
     final, log, reason = run_impl_mode(ctx, r['kind'], r['n'], r['mode'], r['param'])
     why = oracle(ctx, r['kind'], r['n'], r['mode'], r['param'], final, log)
